@@ -5,6 +5,7 @@ CONSTANTS
   Block = 2
   MaxSend = 1
   Dev_ReclaimOnEmpty = FALSE
+  Dev_LateOnHup = FALSE
   Dev_FreeAtHandlerStart = TRUE
   Dev_QueueBeforeReset = FALSE
 INVARIANTS NoBad
